@@ -8,3 +8,12 @@ pub mod process_indels;
 mod process_variants;
 pub mod read_graph;
 pub mod utils;
+
+/// Add-only verification hooks: re-exports of helpers living in private modules.
+#[cfg(feature = "verif-hooks")]
+pub mod verif_hooks {
+    pub use super::output_snps::create_fasta_and_vcf;
+    pub use super::process_indels::verif_hooks::extract_middle_bases;
+    pub use super::process_variants::check_missing_data;
+    pub use super::process_variants::verif_hooks::{complement_snp, get_potential_snp};
+}
